@@ -439,15 +439,17 @@ long vorbis_book_decodevv_add(codebook *book,float **a,long offset,int ch,
                               oggpack_buffer *b,int n){
 
   long i,j,entry;
-  int chptr=0;
+  /* offset and n count scalars of the interleaved vector; neither has
+     to be a multiple of ch */
+  int chptr=offset%ch;
   if(book->used_entries>0){
-    int m=(offset+n)/ch;
-    for(i=offset/ch;i<m;){
+    long pos=offset,end=offset+n;
+    for(i=offset/ch;pos<end;){
       entry = decode_packed_entry_number(book,b);
       if(entry==-1)return(-1);
       {
         const float *t = book->valuelist+entry*book->dim;
-        for (j=0;i<m && j<book->dim;j++){
+        for (j=0;pos<end && j<book->dim;j++,pos++){
           a[chptr++][i]+=t[j];
           if(chptr==ch){
             chptr=0;
